@@ -265,6 +265,9 @@ def oracle_chunk(case, out):
             return "chunk accepted data of another dtype than declared" if ok else None
         if len(rows) <= 500 and sorted_by_time(rows) and any(t < case["start"] or e > case["end"] for t, e, _ in rows):
             return "chunk accepted a row outside its time range" if ok else None
+        # beyond the scope of the property, the documented window: the first row and the last 500 rows are inspected
+        if rows and (rows[0][0] < case["start"] or any(e > case["end"] for _, e, _ in rows[-500:])):
+            return "chunk accepted a first row starting early or a row among its last 500 ending late" if ok else None
     plain = case.get("subruns", "-") == "-" and case.get("superrun", "-") == "-" and case.get("run_id", "r") is not None
     if plain and 0 <= case["start"] <= case["end"] and all(case["start"] <= t and e <= case["end"] for t, e, _ in rows) and not ok:
         return f"valid chunk refused: {out}"
@@ -292,7 +295,7 @@ def chunk_cases(ctx):
                     ex.append(dict(rows=[(a, b, i) for i, (a, b) in enumerate(combo)], start=start, end=end, declared="end", data="end"))
     rnd = []
     keys = list(DTYPE_TABLE)
-    for _ in range(ctx.pick(2500, 20000)):
+    for _ in range(ctx.pick(8000, 40000)):
         enc = rng.choice(list(DECLARED))
         rows = gen.gen_rows(rng, rng.randint(0, 6))
         s, e = gen.run_of(rng, rows)
@@ -327,7 +330,7 @@ def chunk_cases(ctx):
         rnd.append(case)
     # the 500-row window: long arrays with one late / early row at a chosen index
     big = []
-    for _ in range(ctx.pick(60, 400)):
+    for _ in range(ctx.pick(120, 600)):
         n = rng.choice([499, 500, 501, 502, 700, 1001])
         rows = [(2 * i, 2 * i + 1, i) for i in range(n)]
         e = 2 * n + 5
@@ -778,7 +781,7 @@ def stream_cases(ctx):
         for combo in itertools.product(ivs, repeat=n):
             ex.append(dict(chunks=[[a, b, "r", "-"] for a, b in combo]))
     rnd = []
-    for _ in range(ctx.pick(1500, 12000)):
+    for _ in range(ctx.pick(6000, 30000)):
         chunks = []
         t = rng.randint(0, 3)
         rid = "r"
@@ -1287,7 +1290,8 @@ def oracle_scenario(case, out):
     if out.startswith("err"):
         if not bad:
             msgs.append(f"a well-behaved pipeline raised {r.get('exc')}")
-        for d in ("pp", "qq", "down"):
+        # (for the gap kinds the sibling output qq is itself continuous and correct: it may legitimately be stored)
+        for d in (("pp", "down") if v == "gap" else ("pp", "qq", "down")):
             if r["stored"].get(d):
                 if v == "gap" and case["processor"] == "threaded_mailbox" and d == "pp":
                     return (f"{F3_TOKEN}: processor=threaded_mailbox: the caller got {r.get('exc')} for a target with a gap/overlap, "
@@ -1369,7 +1373,7 @@ def run(ctx):
                    branch=lambda c, o: ("<=500" if len(c["rows"]) <= 500 else ">500") + ":" + o.split(" ")[0])
 
     cases = []
-    for _ in range(ctx.pick(1200, 10000)):
+    for _ in range(ctx.pick(4000, 20000)):
         kind = rng.choice(["ordinary", "multi", "loop", "overlap", "down"])
         enc = rng.choice(["end", "len", "arr"])
         plugin = dict(kind=kind, enc=enc)
@@ -1384,13 +1388,13 @@ def run(ctx):
                         "data type given, omitted, or not provided",
                    branch=lambda c, o: c["x"]["t"] + ":" + (c["x"].get("dt", "")[:1]) + ":" + o)
 
-    fcases = gen_fix_cases(ctx, ctx.pick(5000, 40000))
+    fcases = gen_fix_cases(ctx, ctx.pick(15000, 80000))
     ctx.correspond("fix_output", fcases, impl_fix, op_fix, oracle_fix, nontrivial=lambda c, o: True,
                    rule="real plugin instances of kinds source/ordinary/multi-output/loop/cut/overlap-window x results: array / chunk "
                         "(own label, own dtype, own range) / column dict / None / sequence / plain array / dict of these, mostly valid "
                         "with one defect; superrun and subruns annotations incl. superrun run ids",
                    branch=lambda c, o: c["plugin"]["kind"] + ":" + c["result"]["t"] + ":" + " ".join(o.split(" ")[:2 if o.startswith("err") else 1]))
-    dcases = gen_down_cases(ctx, ctx.pick(2500, 20000))
+    dcases = gen_down_cases(ctx, ctx.pick(8000, 40000))
     ctx.correspond("fix_output_down", dcases, impl_fixdown, op_fixdown, oracle_fixdown, nontrivial=lambda c, o: bool(c["items"]),
                    rule="real DownChunkingPlugin instances (single / multi-output) x generators of 0..4 items: chunks with right / wrong "
                         "label, right / wrong dtype, dicts with missing / extra keys, non-chunks; or no generator at all; compared: what "
